@@ -9,6 +9,7 @@ git rm -rq --cached lean/CTV/Audit 2>/dev/null; rm -rf lean/CTV/Audit
 for f in $(git diff --name-only --diff-filter=U); do
   case "$f" in
     MANIFEST.json|known_findings.json) git checkout --ours -- "$f" 2>/dev/null; git add "$f" ;;
+    seeded/*/meta.json|benign/*/meta.json) git checkout --theirs -- "$f" 2>/dev/null; git add "$f" ;;
     evidence/*) git checkout --theirs -- "$f" 2>/dev/null; git add "$f" ;;
     lean/CTV/Gen/*) git checkout --theirs -- "$f" 2>/dev/null; git add "$f" ;;
     lean/CTV/Driver/Main.lean|lean/CTV/Audit/*) git rm -q --cached "$f" 2>/dev/null ;;
